@@ -6,6 +6,7 @@ package main
 
 import (
 	"fmt"
+	"os"
 	"go/token"
 	"go/types"
 	"sort"
@@ -132,6 +133,7 @@ type run struct {
 	pin          map[string]string
 	bounds       map[string]interval
 	tickBound    bool
+	traceCalls   bool
 	atomicDepth  int
 }
 
@@ -399,23 +401,28 @@ func (r *run) schedule(canContinue bool) {
 		if r.dead {
 			panic(pathEnd{"dead"})
 		}
+		// Delay-bounded scheduling (Emmi, Qadeer, Rakamaric 2011): the base scheduler is
+		// deterministic -- keep running the current thread while it can run, otherwise take
+		// the next enabled thread in round-robin order, timers last -- and every deviation
+		// (skipping k candidates) costs k units of the delay budget.
 		var opts []schedOption
 		curEnabled := canContinue && !cur.done
 		if curEnabled {
 			opts = append(opts, schedOption{th: cur})
 		}
-		allowOthers := !curEnabled || r.preemptions < r.h.preemptionBound
-		if allowOthers {
-			for _, t := range r.threads {
-				if t == cur && curEnabled {
-					continue
-				}
-				if t.enabled() {
+		n := len(r.threads)
+		for d := 1; d <= n; d++ {
+			t := r.threads[(cur.id+d)%n]
+			if t == cur {
+				if !curEnabled && t.enabled() {
 					opts = append(opts, schedOption{th: t})
 				}
+				continue
+			}
+			if t.enabled() {
+				opts = append(opts, schedOption{th: t})
 			}
 		}
-		// timers: fire only when chosen; under maximal progress only when nothing else can run
 		var tms []schedOption
 		for _, tm := range r.timers {
 			if !tm.fired && !tm.stopped {
@@ -427,9 +434,16 @@ func (r *run) schedule(canContinue bool) {
 				if len(opts) == 0 {
 					opts = append(opts, tms...)
 				}
-			} else if allowOthers {
+			} else {
 				opts = append(opts, tms...)
 			}
+		}
+		budget := r.h.preemptionBound - r.preemptions
+		if budget < 0 {
+			budget = 0
+		}
+		if len(opts) > budget+1 {
+			opts = opts[:budget+1]
 		}
 		if len(opts) == 0 {
 			r.quiescent()
@@ -437,10 +451,8 @@ func (r *run) schedule(canContinue bool) {
 		}
 		k := r.choose(len(opts), "sched")
 		o := opts[k]
+		r.preemptions += k
 		if o.tm != nil {
-			if curEnabled {
-				r.preemptions++
-			}
 			r.schedLog = append(r.schedLog, "fire "+o.tm.label)
 			r.fireTimer(o.tm)
 			continue
@@ -448,10 +460,10 @@ func (r *run) schedule(canContinue bool) {
 		if o.th == cur {
 			return
 		}
-		if curEnabled {
-			r.preemptions++
-		}
 		r.schedLog = append(r.schedLog, "switch "+o.th.name)
+		if r.traceCalls {
+			fmt.Fprintf(os.Stderr, "  --- switch to %s\n", o.th.name)
+		}
 		r.cur = o.th
 		o.th.wake <- struct{}{}
 		if cur.done {
